@@ -1,9 +1,5 @@
 import GoJson.Gen.Tables
 import GoJson.Gen.Consts
 import GoJson.Gen.Facts
-import GoJson.Spec.Decimal
-import GoJson.Model.Int
-import GoJson.Lemmas.Decimal
-import GoJson.Lemmas.Int
-import GoJson.Lemmas.IntDec
 import GoJson.Props.C16
+import GoJson.Props.C17
